@@ -1593,7 +1593,8 @@ class Translator:
         if key in self.sigs:
             return self.sigs[key]
         if key in self.failed:
-            raise Unsupported(self.mods[modname].path, node, f"needs {cls}.{name}, which could not be translated "
+            raise Unsupported(self.ctx.mod.path if self.ctx else self.mods[modname].path, node,
+                              f"needs {cls}.{name}, which could not be translated "
                               f"({self.failed[key].what} at line {self.failed[key].lineno})")
         if key in self.stack:
             return {"name": f"gen_{cls}_{name}" + ("__upd" if fam == "lens" else ""), "recursive": True}
